@@ -95,6 +95,13 @@ func ER1(x string) string {
 	return err.Error()
 }
 
+// variadic spread: fmt.Errorf must receive the "..." as well
+func ER2(a, b string) string {
+	xs := []any{a, b}
+	err := errors.New(fmt.Sprintf("bad %s/%s", xs...))
+	return err.Error()
+}
+
 // ---- S1030: bytes.Buffer conversions ----
 
 func BB1(s string) string {
